@@ -197,3 +197,78 @@ class GuardFlow(F.Flow):
         if self.c.is_guard(test, False):
             return {st}, {st.set("$has", F.TRUE)}
         return F.Flow.split_leaf(self, test, st)
+
+
+# =================================================================================================
+# contradiction rule: a protocol result tested for None at one site is not dereferenced unguarded at another
+# =================================================================================================
+def nullable_deref_rule(m, rid, funcs):
+    r = RuleResult(rid, "a get_*() result that a function tests for None somewhere is never dereferenced there without such a test on the "
+                        "same receiver (an unnamed opening statement gives None)")
+    r.floor = 2
+    for f in funcs:
+        P = A.parents(f.node)
+        believed = set()
+        for n in A.body_nodes(f.node):
+            if isinstance(n, ast.Compare) and len(n.ops) == 1 and isinstance(n.ops[0], (ast.Is, ast.IsNot)) and A.const(n.comparators[0], 1) is None \
+                    and isinstance(n.left, ast.Call) and isinstance(n.left.func, ast.Attribute) and n.left.func.attr.startswith("get_"):
+                believed.add(n.left.func.attr)
+        nullable_vars = {}
+        for n in A.body_nodes(f.node):
+            if isinstance(n, ast.Assign) and len(n.targets) == 1 and isinstance(n.targets[0], ast.Name) and isinstance(n.value, ast.Call) \
+                    and isinstance(n.value.func, ast.Attribute) and n.value.func.attr in believed:
+                nullable_vars[n.targets[0].id] = n.value
+        for n in A.body_nodes(f.node):
+            if not isinstance(n, ast.Attribute) or not isinstance(n.ctx, ast.Load):
+                continue
+            if isinstance(n.value, ast.Call) and isinstance(n.value.func, ast.Attribute) and n.value.func.attr in believed:
+                call = n.value
+            elif isinstance(n.value, ast.Name) and n.value.id in nullable_vars:
+                call = nullable_vars[n.value.id]
+            else:
+                continue
+            subject = A.text(n.value)
+            r.instances += 1
+            proven = False
+            x = n
+            while x in P and not proven:
+                p_ = P[x]
+                pos, neg = [], []        # tests known true / known false where x is evaluated
+                if isinstance(p_, ast.If):
+                    if x in p_.body:
+                        pos.append(p_.test)
+                    elif x in p_.orelse:
+                        neg.append(p_.test)
+                elif isinstance(p_, ast.IfExp):
+                    if x is p_.body:
+                        pos.append(p_.test)
+                    elif x is p_.orelse:
+                        neg.append(p_.test)
+                elif isinstance(p_, ast.BoolOp) and x in p_.values:
+                    before = p_.values[:p_.values.index(x)]
+                    if isinstance(p_.op, ast.And):
+                        pos += before
+                    else:
+                        neg += before
+                for t in pos:
+                    for c in (t.values if isinstance(t, ast.BoolOp) and isinstance(t.op, ast.And) else [t]):
+                        if isinstance(c, ast.Compare) and len(c.ops) == 1 and isinstance(c.ops[0], ast.IsNot) \
+                                and A.const(c.comparators[0], 1) is None and A.text(c.left) == subject:
+                            proven = True
+                        if A.text(c) == subject:
+                            proven = True
+                for t in neg:
+                    for c in (t.values if isinstance(t, ast.BoolOp) and isinstance(t.op, ast.Or) else [t]):
+                        if isinstance(c, ast.Compare) and len(c.ops) == 1 and isinstance(c.ops[0], ast.Is) \
+                                and A.const(c.comparators[0], 1) is None and A.text(c.left) == subject:
+                            proven = True
+                        if isinstance(c, ast.UnaryOp) and isinstance(c.op, ast.Not) and A.text(c.operand) == subject:
+                            proven = True
+                x = p_
+            r.ob(proven, "%s: `%s` guarded" % (f.qualname, A.text(n)[:50]))
+            if not proven:
+                r.fail("%s|nullable-deref|%s" % (f.qualname, A.text(n)[:40]), "%s: `%s` is dereferenced without a test that `%s` is not None, although the "
+                       "same function tests %s() for None elsewhere: for an unnamed opening statement (e.g. BLOCK DATA without a name "
+                       "closed by END BLOCK DATA <name>) this is an AttributeError that escapes the parser"
+                       % (f.qualname, A.text(n)[:50], subject[:40], call.func.attr), m.loc(f, n))
+    return r
